@@ -185,14 +185,74 @@ def find_regex(fn, nth=0):
     return found[nth]
 
 
-def generate():
+# ----------------------------------------------------------------------------- shape matching helpers
+def called_helpers(fn, scopes):
+    """private helpers (`self._x(…)`, `Cls._x(…)`, `_x(…)`) that `fn` calls and that are defined in one of the
+    given scopes (class / module / enclosing function nodes) – followed ONE level deep"""
+    out = []
+    for node in ast.walk(fn):
+        if isinstance(node, ast.Call):
+            f = node.func
+            name = f.attr if isinstance(f, ast.Attribute) else f.id if isinstance(f, ast.Name) else None
+            if name and name.startswith("_") and not name.startswith("__") and name != fn.name:
+                for sc in scopes:
+                    for st in getattr(sc, "body", []):
+                        if isinstance(st, ast.FunctionDef) and st.name == name and st not in out:
+                            out.append(st)
+    return out
+
+
+def expanded(fn, scopes):
+    """all AST nodes of `fn` and of the private helpers it calls (one level)"""
+    nodes = list(ast.walk(fn))
+    for h in called_helpers(fn, scopes):
+        nodes += list(ast.walk(h))
+    return nodes
+
+
+def has_call(nodes, callee, pred=None):
+    """is there a call of `callee` (source text of the function expression) among the nodes?"""
+    for n in nodes:
+        if isinstance(n, ast.Call) and ast.unparse(n.func) == callee and (pred is None or pred(n)):
+            return True
+    return False
+
+
+def has_expr(nodes, src):
+    """does some expression among the nodes print exactly as `src`?"""
+    return any(isinstance(n, ast.expr) and ast.unparse(n) == src for n in nodes)
+
+
+def module_const(tree, node):
+    """a literal, or a module-level name bound once to a literal"""
+    if isinstance(node, ast.Constant):
+        return node.value
+    if isinstance(node, ast.Name):
+        vals = [st.value for st in tree.body if isinstance(st, ast.Assign) and len(st.targets) == 1
+                and isinstance(st.targets[0], ast.Name) and st.targets[0].id == node.id]
+        if len(vals) == 1 and isinstance(vals[0], ast.Constant):
+            return vals[0].value
+    raise Unsupported("not a constant: " + ast.unparse(node)[:60])
+
+
+def assigned_from(fn, pred):
+    """names assigned (single target) from a value satisfying pred"""
+    return [n.targets[0].id for n in ast.walk(fn) if isinstance(n, ast.Assign) and len(n.targets) == 1
+            and isinstance(n.targets[0], ast.Name) and pred(n.value)]
+
+
+
+EXC = (Unsupported, SyntaxError, KeyError, AttributeError, IndexError, ValueError, AssertionError, TypeError)
+
+
+def _gen_parsers():
+    """Generated/RotationParsers.lean: everything that comes from loguru/_string_parsers.py alone (so that the
+    spelling parsers – also used by the retention area – stay available when a file-sink shape is not understood)"""
     errors = []
     body = ("import LoguruModel.Rotation.Base\nset_option linter.unusedVariables false\n"
             "namespace Rotation.Gen\nopen Rotation\n\n")
     try:
         sp, _ = parse_module("_string_parsers.py")
-        fs, _ = parse_module("_file_sink.py")
-
         # ---- Frequencies.*
         freq_cls = find_class(sp, "Frequencies")
         fnames = []
@@ -213,12 +273,166 @@ def generate():
             if not name.startswith("Frequencies.") or name[12:] not in fnames:
                 raise Unsupported("parse_frequency entry " + name)
             rows.append("  (%s, %s)" % (lean_chars(const_str(k)), name[12:]))
-        src = ast.unparse(pf)
-        if "frequency = frequency.strip().lower()" not in src or "frequencies.get(frequency, None)" not in src:
-            raise Unsupported("parse_frequency normalisation changed")
+        nodes = list(ast.walk(pf))
+        gets = [n for n in nodes if isinstance(n, ast.Call) and isinstance(n.func, ast.Attribute) and n.func.attr == "get"
+                and len(n.args) in (1, 2) and (len(n.args) == 1 or ast.unparse(n.args[1]) == "None")]
+        norm = assigned_from(pf, lambda v: isinstance(v, ast.Call) and ast.unparse(v.func).endswith(".strip().lower"))
+        if len(gets) != 1 or not norm or ast.unparse(gets[0].args[0]) not in norm \
+                or not any(isinstance(n, ast.Return) and n.value is gets[0] for n in nodes):
+            raise Unsupported("parse_frequency no longer returns table.get(text.strip().lower()[, None])")
         body += "/-- the table of `parse_frequency` (keys looked up after strip().lower()) -/\n"
         body += "def freqTable : List (Py.Str × FreqKernel) := [\n" + ",\n".join(rows) + "]\n\n"
 
+        # ---- parse_size
+        ps = find_func(sp, "parse_size")
+        rx, flags = find_regex(ps)
+        if rx != r"([e\+\-\.\d]+)\s*([kmgtpezy])?(i)?(b)" or flags != ["re.I"]:
+            raise Unsupported("parse_size regex changed: %r %r" % (rx, flags))
+        groups = [n for n in ast.walk(ps) if isinstance(n, ast.Assign) and isinstance(n.targets[0], ast.Tuple)
+                  and ast.unparse(n.value).endswith(".groups()")]
+        if len(groups) != 1 or len(groups[0].targets[0].elts) != 4:
+            raise Unsupported("parse_size: the four groups of the match")
+        g_num, g_pre, g_bin, g_unit = [ast.unparse(e) for e in groups[0].targets[0].elts]
+        ifexps = [(n.targets[0].id, n.value) for n in ast.walk(ps) if isinstance(n, ast.Assign) and len(n.targets) == 1
+                  and isinstance(n.targets[0], ast.Name) and isinstance(n.value, ast.IfExp)]
+        by_test = {ast.unparse(v.test): (name, v) for name, v in ifexps}
+        if set(by_test) != {g_pre, g_bin, g_unit} or len(ifexps) != 3:
+            raise Unsupported("parse_size: one conditional assignment per optional group expected")
+        (n_exp, u), (n_base, i), (n_div, b) = by_test[g_pre], by_test[g_bin], by_test[g_unit]
+        ub = u.body
+        if not (isinstance(ub, ast.BinOp) and isinstance(ub.op, ast.Add) and isinstance(ub.right, ast.Constant)
+                and isinstance(ub.left, ast.Call) and ast.unparse(ub.left.func).endswith(".index")
+                and [ast.unparse(x) for x in ub.left.args] == [g_pre + ".lower()"] and ast.unparse(u.orelse) == "0"):
+            raise Unsupported("parse_size unit exponent")
+        letters = const_str(ub.left.func.value)
+        base_bin, base_dec = const_int(i.body), const_int(i.orelse)
+        if not (isinstance(b.body, ast.Subscript) and isinstance(b.body.value, ast.Dict)
+                and ast.unparse(b.body.slice) == g_unit and ast.unparse(b.orelse) == "1"):
+            raise Unsupported("parse_size bit divisor")
+        bits = [(const_str(k), v.value) for k, v in zip(b.body.value.keys, b.body.value.values)]
+        n_val = assigned_from(ps, lambda v: isinstance(v, ast.Call) and ast.unparse(v.func) == "float"
+                              and [ast.unparse(x) for x in v.args] == [g_num])
+        rets = [n.value for n in ast.walk(ps) if isinstance(n, ast.Return) and n.value is not None
+                and ast.unparse(n.value) != "None"]
+        strips = [n for n in ast.walk(ps) if isinstance(n, ast.Assign) and ast.unparse(n.value) == "size.strip()"
+                  and ast.unparse(n.targets[0]) == "size"]
+        if len(n_val) != 1 or len(rets) != 1 or not strips \
+                or ast.unparse(rets[0]) != "%s * %s ** %s / %s" % (n_val[0], n_base, n_exp, n_div):
+            raise Unsupported("parse_size arithmetic changed")
+        body += "def sizeUnitLetters : Py.Str := %s\n" % lean_chars(letters)
+        body += "def sizeUnitOffset : Int := %d\n" % ub.right.value
+        body += "def sizeBinaryBase : Int := %d\ndef sizeDecimalBase : Int := %d\n" % (base_bin, base_dec)
+        body += "def sizeBitDivisor : List (Char × Int) := [%s]\n\n" % ", ".join("('%s', %d)" % (k, v) for k, v in bits)
+
+        # ---- parse_duration
+        pd = find_func(sp, "parse_duration")
+        rx, _ = find_regex(pd)
+        if rx != r"(?:([e\+\-\.\d]+)\s*([a-z]+)[\s\,]*)":
+            raise Unsupported("parse_duration regex changed: %r" % rx)
+        src = ast.unparse(pd)
+        for needle in ("re.fullmatch(reg + '+', duration, flags=re.I)", "re.findall(reg, duration, flags=re.I)",
+                       "return datetime.timedelta(seconds=seconds)", "duration = duration.strip()"):
+            if needle not in src:
+                raise Unsupported("parse_duration no longer contains: " + needle)
+        # the loop: amount = float(<value>); factor = next(f for r, f in units if re.fullmatch(r, <unit>, flags=re.I));
+        # seconds += amount * factor        (names free)
+        loops = [n for n in ast.walk(pd) if isinstance(n, ast.For) and ast.unparse(n.iter) == "re.findall(reg, duration, flags=re.I)"]
+        if len(loops) != 1 or not isinstance(loops[0].target, ast.Tuple) or len(loops[0].target.elts) != 2:
+            raise Unsupported("parse_duration loop")
+        v_val, v_unit = [ast.unparse(e) for e in loops[0].target.elts]
+        amounts = assigned_from(loops[0], lambda v: isinstance(v, ast.Call) and ast.unparse(v.func) == "float"
+                                and [ast.unparse(x) for x in v.args] == [v_val])
+
+        def is_lookup(v):
+            if not (isinstance(v, ast.Call) and ast.unparse(v.func) == "next" and len(v.args) == 1
+                    and isinstance(v.args[0], ast.GeneratorExp) and len(v.args[0].generators) == 1):
+                return False
+            g = v.args[0].generators[0]
+            if not (isinstance(g.target, ast.Tuple) and len(g.target.elts) == 2 and ast.unparse(g.iter) == "units"
+                    and len(g.ifs) == 1):
+                return False
+            r_name, f_name = [ast.unparse(e) for e in g.target.elts]
+            return ast.unparse(v.args[0].elt) == f_name and \
+                ast.unparse(g.ifs[0]) == "re.fullmatch(%s, %s, flags=re.I)" % (r_name, v_unit)
+
+        factors = assigned_from(loops[0], is_lookup)
+        sums = [n for n in ast.walk(loops[0]) if isinstance(n, ast.AugAssign) and isinstance(n.op, ast.Add)
+                and ast.unparse(n.target) == "seconds"]
+        if len(amounts) != 1 or len(factors) != 1 or len(sums) != 1 \
+                or ast.unparse(sums[0].value) != "%s * %s" % (amounts[0], factors[0]):
+            raise Unsupported("parse_duration: seconds += float(value) * unit-factor changed")
+        units = None
+        for node in ast.walk(pd):
+            if isinstance(node, ast.Assign) and ast.unparse(node.targets[0]) == "units" and isinstance(node.value, ast.List):
+                units = node.value
+        if units is None:
+            raise Unsupported("units table")
+        rows = []
+        for e in units.elts:
+            if not (isinstance(e, ast.Tuple) and len(e.elts) == 2 and isinstance(e.elts[1], ast.Constant)):
+                raise Unsupported("units entry")
+            alts = expand_alternatives(const_str(e.elts[0]))
+            us = Fraction(repr(e.elts[1].value)) * 1000000
+            if us.denominator != 1:
+                raise Unsupported("unit multiplier is not a whole number of microseconds: %r" % e.elts[1].value)
+            rows.append("  ([%s], (%d : Int))" % (", ".join(lean_chars(a) for a in alts), us.numerator))
+        body += "/-- `units` of parse_duration: spellings (lower case; matching ignores case), microseconds -/\n"
+        body += "def durationUnits : List (List Py.Str × Int) := [\n" + ",\n".join(rows) + "]\n\n"
+
+        # ---- parse_day
+        pdy = find_func(sp, "parse_day")
+        days = None
+        rng = None
+        for node in ast.walk(pdy):
+            if isinstance(node, ast.Dict):
+                days = node
+            if isinstance(node, ast.UnaryOp) and isinstance(node.op, ast.Not) and isinstance(node.operand, ast.Compare):
+                rng = node.operand
+        if days is None or rng is None:
+            raise Unsupported("parse_day shape")
+        rows = ["(%s, (%d : Int))" % (lean_chars(const_str(k)), v.value) for k, v in zip(days.keys, days.values)]
+        body += "def weekdayNames : List (Py.Str × Int) := [\n  " + ",\n  ".join(rows) + "]\n"
+        if len(rng.ops) != 2:
+            raise Unsupported("weekday range test")
+        if not isinstance(rng.comparators[0], ast.Name):
+            raise Unsupported("weekday range test operand")
+        env = {rng.comparators[0].id: ("day", "int")}
+        l1, _ = Tr(env).tr(ast.Compare(left=rng.left, ops=[rng.ops[0]], comparators=[rng.comparators[0]]))
+        l2, _ = Tr(env).tr(ast.Compare(left=rng.comparators[0], ops=[rng.ops[1]], comparators=[rng.comparators[1]]))
+        body += "/-- `0 <= day < 7` of the `w<N>` spelling -/\ndef weekdayInRange (day : Int) : Bool := (%s && %s)\n\n" % (l1, l2)
+        src = ast.unparse(pdy)
+        if "day.startswith('w') and day[1:].isdigit()" not in src or "day = day.strip().lower()" not in src:
+            raise Unsupported("parse_day spelling test changed")
+
+        # ---- parse_time / parse_daytime
+        pt = find_func(sp, "parse_time")
+        rx, flags = find_regex(pt)
+        if rx != r"^[\d\.\:]+\s*(?:[ap]m)?$" or flags != ["re.I"]:
+            raise Unsupported("parse_time regex changed: %r" % rx)
+        formats = None
+        for node in ast.walk(pt):
+            if isinstance(node, ast.Assign) and ast.unparse(node.targets[0]) == "formats":
+                formats = [const_str(e) for e in node.value.elts]
+        if formats is None:
+            raise Unsupported("parse_time formats")
+        body += "def timeFormats : List Py.Str := [%s]\n\n" % ", ".join(lean_chars(f) for f in formats)
+        pdt = find_func(sp, "parse_daytime")
+        rx, flags = find_regex(pdt)
+        if rx != r"^(.*?)\s+at\s+(.*)$" or flags != ["re.I"]:
+            raise Unsupported("parse_daytime regex changed: %r" % rx)
+    except EXC as e:
+        errors.append("%s: %s" % (type(e).__name__, e))
+    body += "end Rotation.Gen\n"
+    return emit("RotationParsers", body, ["loguru/_string_parsers.py"], errors)
+
+
+def _gen_sink():
+    """Generated/Rotation.lean: kernels and shapes of loguru/_file_sink.py and loguru/_ctime_functions.py"""
+    errors = []
+    body = ("import LoguruModel.Generated.RotationParsers\nset_option linter.unusedVariables false\n"
+            "namespace Rotation.Gen\nopen Rotation\n\n")
+    try:
+        fs, _ = parse_module("_file_sink.py")
         # ---- Rotation.forward_*
         fd = find_func(fs, "forward_day", "Rotation")
         ret = fd.body[0]
@@ -227,16 +441,28 @@ def generate():
             raise Unsupported("forward_day shape")
         body += "/-- `forward_day`: t + timedelta(…) -/\ndef forwardDayDelta : Td := %s\n\n" % _td(ret.value.right, {})
         fw = find_func(fs, "forward_weekday", "Rotation")
+        def is_step(st):
+            return isinstance(st, ast.AugAssign) and isinstance(st.op, ast.Add) and ast.unparse(st.target) == "t"
+
         w = fw.body[0]
-        ok = (len(fw.body) == 1 and isinstance(w, ast.While) and ast.unparse(w.test) == "True" and len(w.body) == 2
-              and isinstance(w.body[0], ast.AugAssign) and isinstance(w.body[0].op, ast.Add)
-              and ast.unparse(w.body[0].target) == "t" and isinstance(w.body[1], ast.If)
-              and ast.unparse(w.body[1].body[0]) == "return t" and not w.body[1].orelse)
-        if not ok:
+        if (len(fw.body) == 1 and isinstance(w, ast.While) and ast.unparse(w.test) == "True" and len(w.body) == 2
+                and is_step(w.body[0]) and isinstance(w.body[1], ast.If)
+                and ast.unparse(w.body[1].body[0]) == "return t" and not w.body[1].orelse):
+            # while True: t += d; if stop: return t
+            step_node, stop_node, negate = w.body[0].value, w.body[1].test, False
+        elif (len(fw.body) == 3 and is_step(fw.body[0]) and isinstance(fw.body[1], ast.While) and not fw.body[1].orelse
+                and len(fw.body[1].body) == 1 and is_step(fw.body[1].body[0])
+                and ast.unparse(fw.body[1].body[0].value) == ast.unparse(fw.body[0].value)
+                and ast.unparse(fw.body[2]) == "return t"):
+            # t += d; while not stop: t += d; return t      (the same do-while loop)
+            step_node, stop_node, negate = fw.body[0].value, fw.body[1].test, True
+        else:
             raise Unsupported("forward_weekday shape")
-        body += "/-- `forward_weekday`: the step of the loop -/\ndef forwardWeekdayDelta : Td := %s\n" % _td(w.body[0].value, {})
-        stop, typ = Tr({"weekday": ("weekday", "int")}, _t_calls()).tr(w.body[1].test)
+        body += "/-- `forward_weekday`: the step of the loop -/\ndef forwardWeekdayDelta : Td := %s\n" % _td(step_node, {})
+        stop, typ = Tr({"weekday": ("weekday", "int")}, _t_calls()).tr(stop_node)
         Tr.need(typ, "bool")
+        if negate:
+            stop = "(!%s)" % stop
         body += "/-- `forward_weekday`: the loop's exit test (t.weekday = weekday of the stepped t) -/\n"
         body += "def forwardWeekdayStop (t : Fields) (weekday : Int) : Bool := %s\n\n" % stop
         fi = find_func(fs, "forward_interval", "Rotation")
@@ -318,13 +544,35 @@ def generate():
         c, tc = Tr(env).tr(loop.test)
         Tr.need(tc, "bool")
         body += "/-- `while self._limit <= record_time` -/\ndef catchUpCond (limit rec : Int) : Bool := %s\n\n" % c
-        src = ast.unparse(call)
-        for needle in ("replace(hour=time_init.hour, minute=time_init.minute, second=time_init.second, "
-                       "microsecond=time_init.microsecond)",
-                       "limit = start_time.astimezone(record_time.tzinfo).replace(tzinfo=None)",
-                       "creation_time = get_ctime(filepath)"):
-            if needle not in src:
-                raise Unsupported("RotationTime.__call__ no longer contains: " + needle)
+        cnodes = expanded(call, [rt, find_class(fs, "Rotation"), fs])
+
+        def is_time_replace(n):
+            return (isinstance(n.func, ast.Attribute) and n.func.attr == "replace" and not n.args
+                    and sorted(k.arg for k in n.keywords) == ["hour", "microsecond", "minute", "second"]
+                    and all(ast.unparse(k.value) == "time_init." + k.arg for k in n.keywords))
+
+        if not any(isinstance(n, ast.Call) and is_time_replace(n) for n in cnodes):
+            raise Unsupported("RotationTime.__call__: replace(hour/minute/second/microsecond = time_init.…) not found")
+        if not has_expr(cnodes, "start_time.astimezone(record_time.tzinfo).replace(tzinfo=None)"):
+            raise Unsupported("RotationTime.__call__: the naive first limit is no longer the creation time in the record's zone")
+        # the creation time: get_ctime(realpath(file.name)), persisted back with set_ctime, read as a UTC instant
+        gets = [n for n in cnodes if isinstance(n, ast.Call) and ast.unparse(n.func) == "get_ctime" and len(n.args) == 1]
+        if len(gets) != 1:
+            raise Unsupported("RotationTime.__call__: exactly one get_ctime(path) expected")
+        path_arg = ast.unparse(gets[0].args[0])
+        path_ok = path_arg == "os.path.realpath(file.name)" or any(
+            isinstance(n, ast.Assign) and ast.unparse(n.targets[0]) == path_arg
+            and ast.unparse(n.value) == "os.path.realpath(file.name)" for n in cnodes)
+        ctime_names = [ast.unparse(n.targets[0]) for n in cnodes if isinstance(n, ast.Assign) and n.value is gets[0]]
+        if not path_ok or len(ctime_names) != 1:
+            raise Unsupported("RotationTime.__call__: get_ctime is not applied to os.path.realpath(file.name)")
+        cname = ctime_names[0]
+        if not has_call(cnodes, "set_ctime", lambda n: [ast.unparse(a) for a in n.args] == [path_arg, cname]):
+            raise Unsupported("RotationTime.__call__: the creation time is no longer persisted with set_ctime")
+        if not has_call(cnodes, "datetime.datetime.fromtimestamp",
+                        lambda n: [ast.unparse(a) for a in n.args] == [cname]
+                        and [(k.arg, ast.unparse(k.value)) for k in n.keywords] == [("tz", "datetime.timezone.utc")]):
+            raise Unsupported("RotationTime.__call__: start_time is no longer fromtimestamp(creation_time, tz=utc)")
 
         # ---- RotationTime.__call__: when is `time_init` treated as naive?  (zone choice, and dropping tzinfo)
         def naive_test(node, local):
@@ -381,8 +629,14 @@ def generate():
         body += "/-- after a rotation, is the new file unconditionally tagged `set_ctime(new_path, now)`? -/\n"
         body += "def newFileTaggedWithNow : Bool := %s\n" % ("true" if tagged else "false")
         same = [n for n in ast.walk(tf) if isinstance(n, ast.If) and ast.unparse(n.test) in ("new_path == old_path", "old_path == new_path")]
-        if len(same) != 1 or "os.rename(old_path, renamed_path)" not in ast.unparse(same[0]):
-            raise Unsupported("_terminate_file: the rename of a file that keeps its name changed")
+        fsink = find_class(fs, "FileSink")
+        if len(same) != 1:
+            raise Unsupported("_terminate_file: the test `new_path == old_path` changed")
+        holder = ast.Module(body=same[0].body, type_ignores=[])
+        holder.name = "_terminate_file"
+        if not has_call(expanded(holder, [fsink, fs]), "os.rename") \
+                or not has_call(expanded(holder, [fsink, fs]), "generate_rename_path"):
+            raise Unsupported("_terminate_file: a file that keeps its name is no longer renamed away")
         cf = find_func(fs, "_create_file", "FileSink")
         assigns = [ast.unparse(n.value) for n in ast.walk(cf) if isinstance(n, ast.Assign)
                    and ast.unparse(n.targets[0]) == "self._file_path"]
@@ -395,14 +649,28 @@ def generate():
         # ---- _make_rotation_function
         mk = find_func(fs, "_make_rotation_function", "FileSink")
         order, guard, default_time = [], None, None
+        fsink = find_class(fs, "FileSink")
         for node in ast.walk(mk):
             if isinstance(node, ast.If) and ast.unparse(node.test) == "isinstance(rotation, str)":
                 for sub in ast.walk(node):
                     if isinstance(sub, ast.Call) and ast.unparse(sub.func).startswith("string_parsers."):
                         order.append(ast.unparse(sub.func)[15:])
-                    if isinstance(sub, ast.Assign) and ast.unparse(sub.targets[0]) == "time" \
-                            and isinstance(sub.value, ast.Call):
-                        default_time = ast.unparse(sub.value)
+                holder = ast.Module(body=node.body, type_ignores=[])
+                holder.name = "_make_rotation_function"
+                snodes = expanded(holder, [fsink, fs])
+                for sub in snodes:
+                    if isinstance(sub, ast.If) and isinstance(sub.test, ast.Compare) and len(sub.test.ops) == 1 \
+                            and isinstance(sub.test.ops[0], ast.Is) and ast.unparse(sub.test.comparators[0]) == "None" \
+                            and len(sub.body) == 1 and isinstance(sub.body[0], ast.Assign) \
+                            and ast.unparse(sub.body[0].targets[0]) == ast.unparse(sub.test.left) \
+                            and isinstance(sub.body[0].value, ast.Call) \
+                            and ast.unparse(sub.body[0].value.func) == "datetime.time":
+                        default_time = ast.unparse(sub.body[0].value)
+                if not has_call(snodes, "Rotation.RotationTime", lambda n: len(n.args) == 2 and
+                                [(k.arg, ast.unparse(k.value)) for k in n.keywords] == [("weekday", "day")]) \
+                        or not has_call(snodes, "partial", lambda n: ast.unparse(n.args[0]) == "Rotation.forward_weekday"
+                                        and [(k.arg, ast.unparse(k.value)) for k in n.keywords] == [("weekday", "day")]):
+                    raise Unsupported("weekday rotations are no longer RotationTime(partial(forward_weekday, weekday=day), time, weekday=day)")
             if isinstance(node, ast.If) and ast.unparse(node.test) == "isinstance(rotation, datetime.timedelta)":
                 for sub in node.body:
                     if isinstance(sub, ast.If) and isinstance(sub.body[0], ast.Raise):
@@ -424,107 +692,6 @@ def generate():
         body += "/-- the test under which a `timedelta` rotation is rejected with ValueError (microseconds) -/\n"
         body += "def intervalRejected (rotation : Int) : Bool := %s\n\n" % g
 
-        # ---- parse_size
-        ps = find_func(sp, "parse_size")
-        rx, flags = find_regex(ps)
-        if rx != r"([e\+\-\.\d]+)\s*([kmgtpezy])?(i)?(b)" or flags != ["re.I"]:
-            raise Unsupported("parse_size regex changed: %r %r" % (rx, flags))
-        src = ast.unparse(ps)
-        consts = {}
-        for node in ast.walk(ps):
-            if isinstance(node, ast.Assign) and len(node.targets) == 1 and isinstance(node.value, ast.IfExp):
-                consts[ast.unparse(node.targets[0])] = node.value
-        u, i, b = consts.get("u"), consts.get("i"), consts.get("b")
-        if u is None or i is None or b is None:
-            raise Unsupported("parse_size assignments")
-        ub = u.body
-        if not (isinstance(ub, ast.BinOp) and isinstance(ub.op, ast.Add) and isinstance(ub.right, ast.Constant)
-                and ast.unparse(ub.left).endswith(".index(u.lower())") and ast.unparse(u.orelse) == "0"
-                and ast.unparse(u.test) == "u"):
-            raise Unsupported("parse_size unit exponent")
-        letters = const_str(ub.left.func.value)
-        if ast.unparse(i.test) != "i":
-            raise Unsupported("parse_size base")
-        base_bin, base_dec = const_int(i.body), const_int(i.orelse)
-        if not (ast.unparse(b.test) == "b" and isinstance(b.body, ast.Subscript) and isinstance(b.body.value, ast.Dict)
-                and ast.unparse(b.body.slice) == "b" and ast.unparse(b.orelse) == "1"):
-            raise Unsupported("parse_size bit divisor")
-        bits = [(const_str(k), v.value) for k, v in zip(b.body.value.keys, b.body.value.values)]
-        if "return s * i ** u / b" not in src or "size = size.strip()" not in src or "s = float(s)" not in src:
-            raise Unsupported("parse_size arithmetic changed")
-        body += "def sizeUnitLetters : Py.Str := %s\n" % lean_chars(letters)
-        body += "def sizeUnitOffset : Int := %d\n" % ub.right.value
-        body += "def sizeBinaryBase : Int := %d\ndef sizeDecimalBase : Int := %d\n" % (base_bin, base_dec)
-        body += "def sizeBitDivisor : List (Char × Int) := [%s]\n\n" % ", ".join("('%s', %d)" % (k, v) for k, v in bits)
-
-        # ---- parse_duration
-        pd = find_func(sp, "parse_duration")
-        rx, _ = find_regex(pd)
-        if rx != r"(?:([e\+\-\.\d]+)\s*([a-z]+)[\s\,]*)":
-            raise Unsupported("parse_duration regex changed: %r" % rx)
-        src = ast.unparse(pd)
-        for needle in ("re.fullmatch(reg + '+', duration, flags=re.I)", "re.findall(reg, duration, flags=re.I)",
-                       "next((u for r, u in units if re.fullmatch(r, unit, flags=re.I)))", "seconds += value * unit",
-                       "return datetime.timedelta(seconds=seconds)", "duration = duration.strip()"):
-            if needle not in src:
-                raise Unsupported("parse_duration no longer contains: " + needle)
-        units = None
-        for node in ast.walk(pd):
-            if isinstance(node, ast.Assign) and ast.unparse(node.targets[0]) == "units" and isinstance(node.value, ast.List):
-                units = node.value
-        if units is None:
-            raise Unsupported("units table")
-        rows = []
-        for e in units.elts:
-            if not (isinstance(e, ast.Tuple) and len(e.elts) == 2 and isinstance(e.elts[1], ast.Constant)):
-                raise Unsupported("units entry")
-            alts = expand_alternatives(const_str(e.elts[0]))
-            us = Fraction(repr(e.elts[1].value)) * 1000000
-            if us.denominator != 1:
-                raise Unsupported("unit multiplier is not a whole number of microseconds: %r" % e.elts[1].value)
-            rows.append("  ([%s], (%d : Int))" % (", ".join(lean_chars(a) for a in alts), us.numerator))
-        body += "/-- `units` of parse_duration: spellings (lower case; matching ignores case), microseconds -/\n"
-        body += "def durationUnits : List (List Py.Str × Int) := [\n" + ",\n".join(rows) + "]\n\n"
-
-        # ---- parse_day
-        pdy = find_func(sp, "parse_day")
-        days = None
-        rng = None
-        for node in ast.walk(pdy):
-            if isinstance(node, ast.Dict):
-                days = node
-            if isinstance(node, ast.UnaryOp) and isinstance(node.op, ast.Not) and isinstance(node.operand, ast.Compare):
-                rng = node.operand
-        if days is None or rng is None:
-            raise Unsupported("parse_day shape")
-        rows = ["(%s, (%d : Int))" % (lean_chars(const_str(k)), v.value) for k, v in zip(days.keys, days.values)]
-        body += "def weekdayNames : List (Py.Str × Int) := [\n  " + ",\n  ".join(rows) + "]\n"
-        if len(rng.ops) != 2:
-            raise Unsupported("weekday range test")
-        env = {"day": ("day", "int")}
-        l1, _ = Tr(env).tr(ast.Compare(left=rng.left, ops=[rng.ops[0]], comparators=[rng.comparators[0]]))
-        l2, _ = Tr(env).tr(ast.Compare(left=rng.comparators[0], ops=[rng.ops[1]], comparators=[rng.comparators[1]]))
-        body += "/-- `0 <= day < 7` of the `w<N>` spelling -/\ndef weekdayInRange (day : Int) : Bool := (%s && %s)\n\n" % (l1, l2)
-        src = ast.unparse(pdy)
-        if "day.startswith('w') and day[1:].isdigit()" not in src or "day = day.strip().lower()" not in src:
-            raise Unsupported("parse_day spelling test changed")
-
-        # ---- parse_time / parse_daytime
-        pt = find_func(sp, "parse_time")
-        rx, flags = find_regex(pt)
-        if rx != r"^[\d\.\:]+\s*(?:[ap]m)?$" or flags != ["re.I"]:
-            raise Unsupported("parse_time regex changed: %r" % rx)
-        formats = None
-        for node in ast.walk(pt):
-            if isinstance(node, ast.Assign) and ast.unparse(node.targets[0]) == "formats":
-                formats = [const_str(e) for e in node.value.elts]
-        if formats is None:
-            raise Unsupported("parse_time formats")
-        body += "def timeFormats : List Py.Str := [%s]\n\n" % ", ".join(lean_chars(f) for f in formats)
-        pdt = find_func(sp, "parse_daytime")
-        rx, flags = find_regex(pdt)
-        if rx != r"^(.*?)\s+at\s+(.*)$" or flags != ["re.I"]:
-            raise Unsupported("parse_daytime regex changed: %r" % rx)
         # ---- _ctime_functions.py: where the creation time of a file comes from
         ct, _ = parse_module("_ctime_functions.py")
         load = find_func(ct, "load_ctime_functions")
@@ -552,15 +719,15 @@ def generate():
         g = tr_.body[0].value
         if not (isinstance(g, ast.Call) and ast.unparse(g.func) == "float" and len(g.args) == 1
                 and isinstance(g.args[0], ast.Call) and ast.unparse(g.args[0].func) == "os.getxattr"
-                and ast.unparse(g.args[0].args[0]) == "filepath" and isinstance(g.args[0].args[1], ast.Constant)):
+                and ast.unparse(g.args[0].args[0]) == "filepath" and len(g.args[0].args) == 2):
             raise Unsupported("get_ctime_linux does not read float(os.getxattr(filepath, b'…'))")
-        get_attr = g.args[0].args[1].value.decode("ascii")
+        get_attr = module_const(ct, g.args[0].args[1]).decode("ascii")
         sl = find_func(load, "set_ctime_linux")
         sets = [n for n in ast.walk(sl) if isinstance(n, ast.Call) and ast.unparse(n.func) == "os.setxattr"]
-        if len(sets) != 1 or ast.unparse(sets[0].args[0]) != "filepath" or not isinstance(sets[0].args[1], ast.Constant) \
+        if len(sets) != 1 or ast.unparse(sets[0].args[0]) != "filepath" \
                 or ast.unparse(sets[0].args[2]) != "str(timestamp).encode('ascii')":
             raise Unsupported("set_ctime_linux shape")
-        set_attr = sets[0].args[1].value.decode("ascii")
+        set_attr = module_const(ct, sets[0].args[1]).decode("ascii")
         _, fb_field = stat_field("get_ctime_fallback")
         _, mac_field = stat_field("get_ctime_macos")
         _, win_field = stat_field("get_ctime_windows")
@@ -574,7 +741,13 @@ def generate():
         body += "/-- `get_ctime_fallback` (no xattr support at all): os.stat(filepath).%s -/\n" % fb_field
         body += "def ctimeNoXattr (st : StatTimes) : Int := st.%s\n" % fb_field
         body += "def ctimeMacos (st : StatTimes) : Int := st.%s\ndef ctimeWindows (st : StatTimes) : Int := st.%s\n\n" % (mac_field, win_field)
-    except (Unsupported, SyntaxError, KeyError, AttributeError, IndexError, ValueError) as e:
+    except EXC as e:
         errors.append("%s: %s" % (type(e).__name__, e))
     body += "end Rotation.Gen\n"
-    return emit("Rotation", body, ["loguru/_file_sink.py", "loguru/_string_parsers.py", "loguru/_ctime_functions.py"], errors)
+    return emit("Rotation", body, ["loguru/_file_sink.py", "loguru/_ctime_functions.py"], errors)
+
+
+def generate():
+    a = _gen_parsers()
+    b = _gen_sink()
+    return a and b
